@@ -5,6 +5,7 @@ From TL Require Import Lib.Base.
 (* which string / component list a path predicate of the source looks at (read off the source by the translator) *)
 Inductive pscope :=
 | ScGivenParts      (* `file_path.parts` of the path exactly as it reached lint_file *)
+| ScProjectRelParts (* parts of the path re-rooted at the project root (the shape of proposed_fixes/C09-exclusion-inside-project.diff) *)
 | ScGivenStr        (* `str(file_path)` of the path as given *)
 | ScGivenName.      (* `file_path.name` / last component *)
 
